@@ -1,14 +1,16 @@
-SPECIFICATION SSpec
+SPECIFICATION BSpec
 CONSTANTS
   Rows = 3
   Cols = 4
   Chars <- Chars3
   Slack = 1
-  MaxLevel = 3
+  MaxLevel = 0
+  MaxSteps = 3
 INVARIANT Shape
 INVARIANT CursorOnScreen
 INVARIANT SavedOnScreen
 INVARIANT RegionValid
-INVARIANT AccessorsAgree
-CONSTRAINT LevelBound
+INVARIANT BAccessorsAgree
+INVARIANT BLaws
+CONSTRAINT StepBound
 CHECK_DEADLOCK FALSE
